@@ -17,6 +17,10 @@ def run(ctx, replay):
     ctx.model_check("MCKVReaders", "MCKVReaders.cfg", timeout=3000, coverage=thorough)
     ctx.model_check("MCKVReaders", "MCKVReaders_dev_collect.cfg", expect="violation", timeout=600)
     ctx.model_check("MCKVReaders", "MCKVReaders_dev_unpend.cfg", expect="violation", timeout=600)
+    # several committers on one family: commits are serialised read-modify-write steps of the current version; a base
+    # version read before the version-set lock (BaseBeforeLock) loses a commit that returned success
+    ctx.model_check("MCKVReaders", "MCKVReaders_committers_thorough.cfg" if thorough else "MCKVReaders_committers.cfg", timeout=3000)
+    ctx.model_check("MCKVReaders", "MCKVReaders_dev_baseearly.cfg", expect="violation", timeout=600)
     # T: real family under the seeded gate scheduler (gates = the file-system seams)
     tr = os.path.join(ctx.scratch, "kvc.ndjson")
     scr = os.path.join(ctx.scratch, "scr-kvc")
@@ -29,6 +33,7 @@ def run(ctx, replay):
         ctx.sample(s)
     ctx.extra["schedules"] = summ["extra"]["schedules"]
     ctx.extra["scheduled_steps"] = summ["extra"]["steps"]
+    ctx.extra["overlapping_commit_scenarios"] = summ["extra"].get("overlapping", 0)
     vcore.validate_all(ctx, "KVStoreTrace", "KVStoreTrace.cfg", tr, describe=c01.describe, dfs=False)
     # sequential histories with reopen as well (snapshots across commits)
     c01.run_kv(ctx, ["--histories", 40 if thorough else 8, "--ops", 24, "--images", 0], "seq")
